@@ -15,7 +15,7 @@ func main() {
 	r.Rule("C01's ledger model extended with leases (outpoint -> id, effective expiry) under a fake clock installed through the verif hook; histories interleave see / mine / disconnect / abandon / restart with lease, release (3 ids), clock jumps placed at expiry-1ns, expiry, expiry+1ns, expiry+1s of pending leases, and expiry sweeps; every LockOutput / UnlockOutput result (ErrUnknownOutput, ErrOutputAlreadyLocked, ErrOutputUnlockNotAllowed, returned expiry) and, after every event, ListLockedOutputs, Balance grid, UnspentOutputs are compared with the model. Non-trivial = history in which a lease was taken and the clock probed an expiry; distinct = distinct event sequences.")
 	r.Trusted("lnd/clock TestClock", "btcd wire/chainhash", "walletdb/bdb (C11)")
 	r.Assume("effective expiry is the persisted whole second (DESIGN O-1); the instant returned by LockOutput is checked separately to equal now+duration", "leasing a credited output already spent by a confirmed transaction is not asserted either way", "ListLockedOutputs is compared only for outputs of currently known transactions")
-	n := r.N(150, 3000)
+	n := r.N(400, 4000)
 	cfg := ledger.Config{MinSteps: 30, MaxSteps: r.N(100, 160), Leases: true, Reopen: true}
 	dir := r.TempDir("c12")
 	defer os.RemoveAll(dir)
